@@ -97,6 +97,7 @@ class FlaskHop:
         self.w = w
         self.node = 'flask'
         self.log: Any = _Log()
+        self._seen = 0
         self.service = Service(w, 'sync', node=self.node)
         self.app = flask.Flask('pjsim_flask')
         self.rpc = pj_flask.JsonRPC(path, status_by_error=STATUS_FUNCTIONS[status_fn], error_handlers={}, **dispatcher_kwargs)
@@ -117,8 +118,9 @@ class FlaskHop:
             res.status, res.ctype, res.body = r.status_code, r.headers.get('Content-Type'), r.get_data()
         except Exception as e:  # noqa: BLE001
             res.raised = e
-        res.dispatched = list(self.log)
-        res.endpoints = list(self.log.labels)
+        res.dispatched = list(self.log)[self._seen:]
+        res.endpoints = list(self.log.labels)[self._seen:]
+        self._seen = len(self.log)
         return res
 
 
@@ -130,6 +132,7 @@ class WerkzeugHop:
         self.w = w
         self.node = 'werkzeug'
         self.log: Any = _Log()
+        self._seen = 0
         self.service = Service(w, 'sync', node=self.node)
         self.rpc = pj_werkzeug.JsonRPC(path, error_handlers={}, **dispatcher_kwargs)
         self.rpc.dispatcher.add_methods(self.service.registry())
@@ -144,8 +147,9 @@ class WerkzeugHop:
             res.status, res.ctype, res.body = r.status_code, r.headers.get('Content-Type'), r.get_data()
         except Exception as e:  # noqa: BLE001
             res.raised = e
-        res.dispatched = list(self.log)
-        res.endpoints = list(self.log.labels)
+        res.dispatched = list(self.log)[self._seen:]
+        res.endpoints = list(self.log.labels)[self._seen:]
+        self._seen = len(self.log)
         return res
 
 
@@ -159,6 +163,7 @@ class AiohttpHop:
         self.node = 'aiohttp'
         self.loop = ensure_loop(w)
         self.log: Any = _Log()
+        self._seen = 0
         self.service = Service(w, flavour, node=self.node)
         self.rpc = pj_aiohttp.Application(path, status_by_error=STATUS_FUNCTIONS[status_fn], error_handlers={},
                                           **dispatcher_kwargs)
@@ -194,8 +199,9 @@ class AiohttpHop:
             loop.run_until_complete(go())
         except Exception as e:  # noqa: BLE001
             res.raised = e
-        res.dispatched = list(self.log)
-        res.endpoints = list(self.log.labels)
+        res.dispatched = list(self.log)[self._seen:]
+        res.endpoints = list(self.log.labels)[self._seen:]
+        self._seen = len(self.log)
         return res
 
 
